@@ -24,7 +24,8 @@ def c02 (fn : String) (r : Req) : Option (String × String) :=
   let w := r.nat "w" 1
   let sh := r.shape
   let xs : List Nat := (List.range n).map (· + 10)
-  let ys : List Nat := (List.range n).map (· + 50)
+  let n2 := match r.get "n2" with | some _ => r.nat "n2" | none => n
+  let ys : List Nat := (List.range n2).map (· + 50)
   let specIdx := (List.range n).map fun i => (startAt w i, i)
   let out := outOf (writes sh n w) n
   let sout := outOf (List.range n) n
